@@ -25,6 +25,8 @@ import EPV.Spec.Detonation
 import EPV.Lemmas.SDRZ
 import EPV.Tactics
 
+import EPV.Lemmas.Bridge.DetonTactics
+
 set_option linter.all false
 
 open EPV EPV.Gen EPV.Spec
@@ -56,8 +58,9 @@ theorem sdrz_steady (p : SDRZProfile.P) (t : ℝ) (h : SDRZProfile.outcome p t =
        have e5 : p.rho_0 ≠ 0 := by linarith
        first
          | (exfalso; nlinarith)
-         | (refine SteadyZone.of_short ?_ ?_ <;> simp only [epv_leaf] <;>
-              (first | rw [hg] | rw [hg1]) <;> (try rw [div_self hD]) <;> field_simp <;> ring))
+         | (have e0 : 0 ≤ 1 - t := by linarith
+            refine SteadyZone.of_short ?_ ?_ <;> simp only [epv_leaf] <;>
+              (first | epv_deton_sqrt_rw (1 - t) | epv_deton_sqrt_rw (0 : ℝ)) <;> epv_deton_feqd))
 
 /-- non-vacuity: the hypotheses hold at the solver's defaults (D = 0.85, ρ₀ = 1.6, γ = 3), t = 1/2 -/
 example : ∃ (p : SDRZProfile.P) (t : ℝ), SDRZProfile.outcome p t = .ok ∧ 1 < p.gamma ∧ 0 ≤ t ∧ t ≤ 1 := by
@@ -118,13 +121,14 @@ theorem sdrz_dxdt_leaf (p : SDRZProfile.P) (t : ℝ) (hD : 0 < p.D) (hρ : 0 < p
       (p.D - SDRZProfile.L5.velocity p t) t := by
   refine (SDRZProfile.L5.position_relative_hasDerivAt_t p t).congr_deriv ?_
   simp only [epv_deriv, epv_leaf]
-  rw [SDRZ.g_eq p.D t hD.ne' h1]
+  have hD' : p.D ≠ 0 := hD.ne'
+  have e0 : 0 ≤ 1 - t := by linarith
   have e1 : p.gamma - (1 - t) ≠ 0 := by linarith
   have e3 : p.gamma ≠ 0 := by linarith
   have e4 : p.gamma + 1 ≠ 0 := by linarith
   have e5 : p.rho_0 ≠ 0 := by linarith
-  field_simp
-  ring
+  repeat epv_deton_sqrt_rw (1 - t)
+  epv_deton_feqd
 
 /-- `dx/dt = D - u` for the returned (tree-level) fields at every particle age 0 < t < 1 -/
 theorem sdrz_dxdt (p : SDRZProfile.P) (t : ℝ) (hD : 0 < p.D) (hρ : 0 < p.rho_0) (hγ : 1 < p.gamma)
@@ -162,7 +166,7 @@ theorem sdrz_tail_steady (p : SDRZTail.P) (t : ℝ) (h : SDRZTail.outcome p t = 
        first
          | (exfalso; nlinarith)
          | (refine ⟨SteadyZone.of_short ?_ ?_, ?_⟩ <;> simp only [epv_leaf] <;>
-              (try rw [hg1]) <;> (try rw [div_self hD]) <;> field_simp <;> ring))
+              (repeat epv_deton_sqrt_rw (0 : ℝ)) <;> epv_deton_feqd))
 
 example : ∃ (p : SDRZTail.P) (t : ℝ), SDRZTail.outcome p t = .ok ∧ 1 < p.gamma ∧ 1 ≤ t := by
   refine ⟨⟨17/20, 3, 8/5⟩, 6/5, ?_, by norm_num, by norm_num⟩
@@ -191,7 +195,7 @@ theorem sdrz_tail_dxdt (p : SDRZTail.P) (t : ℝ) (hD : 0 < p.D) (hρ : 0 < p.rh
       (p.D - SDRZTail.L14.velocity p t) t := by
     refine (SDRZTail.L14.position_relative_hasDerivAt_t p t).congr_deriv ?_
     simp only [epv_deriv, epv_leaf]
-    ring
+    epv_deton_feq
   refine hl.congr_of_eventuallyEq ?_
   filter_upwards [Ioi_mem_nhds h1] with s hs
   exact (sdrz_tail_tree_eq_L14 p s hD hρ (by linarith) hs).1
